@@ -463,6 +463,7 @@ Fixpoint run {V} (t : ObjectTree V) (ops : list op) : outcome (ObjectTree V) :=
       11 index                    ObjectAt                 -> 0 ptr-or-InvalidIndex(nil)
       12 th                       CreateDefaultScopes      -> 0 digest
       13 scope n b1..bn           findRelative             -> 0 result
+      14 b                        digests off (b = 0) / on: while off the edits above report only 0 (and ptr)
     A panic is reported as the single number 1 and ends the case (the state of the Go tree
     after a recovered panic is not specified); out of fuel is 2 and ends the case. *)
 Definition obj_fields {V} (o : Object V) : list N :=
@@ -483,9 +484,13 @@ Definition ptr_opt {V} (t : ObjectTree V) (p : N) : option N :=
 
 Definition enc_ptr (p : option N) : N := match p with Some i => i | None => InvalidIndex end.
 
-Definition mut {V} (r : outcome (ObjectTree V)) (k : ObjectTree V -> list N) : list N :=
+(** [dg]: whether edits report the digest of the whole pool (command 14 switches it; building a
+    tree of several hundred objects with a digest after every edit is quadratic) *)
+Definition dgst {V} (dg : bool) (t : ObjectTree V) : list N := if dg then [digest t] else [].
+
+Definition mut {V} (dg : bool) (r : outcome (ObjectTree V)) (k : ObjectTree V -> list N) : list N :=
   match r with
-  | Ok t => 0 :: digest t :: k t
+  | Ok t => 0 :: dgst dg t ++ k t
   | Panic => [1]
   | OutOfFuel => [2]
   end.
@@ -497,24 +502,24 @@ Definition qry {V} (t : ObjectTree V) (r : outcome N) (k : ObjectTree V -> list 
   | OutOfFuel => [2]
   end.
 
-Fixpoint run_cmds (fuel : nat) (t : ObjectTree N) (l : list N) : list N :=
+Fixpoint run_cmds (fuel : nat) (dg : bool) (t : ObjectTree N) (l : list N) : list N :=
   match fuel with O => [] | S fuel =>
-  let k := fun t' rest => run_cmds fuel t' rest in
+  let k := fun t' rest => run_cmds fuel dg t' rest in
   match l with
   | 0 :: opc :: th :: rest =>
       match newObject t opc th with
-      | Ok (t1, p) => 0 :: p :: digest t1 :: k t1 rest
+      | Ok (t1, p) => 0 :: p :: dgst dg t1 ++ k t1 rest
       | Panic => [1] | OutOfFuel => [2]
       end
   | 1 :: opc :: th :: n0 :: n1 :: n2 :: n3 :: rest =>
       match newNamedObject t opc th (n0, n1, n2, n3) with
-      | Ok (t1, p) => 0 :: p :: digest t1 :: k t1 rest
+      | Ok (t1, p) => 0 :: p :: dgst dg t1 ++ k t1 rest
       | Panic => [1] | OutOfFuel => [2]
       end
-  | 2 :: a :: b :: rest => mut (append t a b) (fun t1 => k t1 rest)
-  | 3 :: a :: b :: c :: rest => mut (appendAfter t a b c) (fun t1 => k t1 rest)
-  | 4 :: a :: b :: rest => mut (detach t a b) (fun t1 => k t1 rest)
-  | 5 :: a :: rest => mut (free t a) (fun t1 => k t1 rest)
+  | 2 :: a :: b :: rest => mut dg (append t a b) (fun t1 => k t1 rest)
+  | 3 :: a :: b :: c :: rest => mut dg (appendAfter t a b c) (fun t1 => k t1 rest)
+  | 4 :: a :: b :: rest => mut dg (detach t a b) (fun t1 => k t1 rest)
+  | 5 :: a :: rest => mut dg (free t a) (fun t1 => k t1 rest)
   | 6 :: rest => 0 :: dump t ++ k t rest
   | 7 :: scope :: n :: rest =>
       let '(e, rest') := take_n n rest in qry t (Find t scope e) (fun t1 => k t1 rest')
@@ -523,10 +528,11 @@ Fixpoint run_cmds (fuel : nat) (t : ObjectTree N) (l : list N) : list N :=
       qry t (do r <- ArgAt t (ptr_opt t a) i; Ok (enc_ptr r)) (fun t1 => k t1 rest)
   | 10 :: a :: rest => qry t (ClosestNamedAncestor t (ptr_opt t a)) (fun t1 => k t1 rest)
   | 11 :: i :: rest => 0 :: enc_ptr (ObjectAt t i) :: k t rest
-  | 12 :: th :: rest => mut (CreateDefaultScopes t th) (fun t1 => k t1 rest)
+  | 12 :: th :: rest => mut dg (CreateDefaultScopes t th) (fun t1 => k t1 rest)
   | 13 :: scope :: n :: rest =>
       let '(e, rest') := take_n n rest in qry t (findRelative t scope e) (fun t1 => k t1 rest')
+  | 14 :: b :: rest => run_cmds fuel (negb (b =? 0)) t rest
   | _ => []
   end end.
 
-Definition run_case (l : list N) : list N := run_cmds (S (length l)) NewObjectTree l.
+Definition run_case (l : list N) : list N := run_cmds (S (length l)) true NewObjectTree l.
